@@ -72,7 +72,11 @@ type c01Step struct {
 	InheritNS bool     `json:"inherit_ns,omitempty"`   // plaintext assertions rely on a namespace declaration of the Response element
 	Prefix    int      `json:"prefix_style,omitempty"` // assertions use: 0 the saml: prefix, 1 the default namespace, 2 the saml2: prefix
 	Ops       []c01Op  `json:"ops"`
+	Retrust   string   `json:"retrust,omitempty"` // before this delivery the SP's IdP metadata is replaced (key roll-over / retirement) by this trust configuration
 }
+
+// c01RootKeys: keys that are a trusted signing root in some configuration of a run
+func c01RootKey(key int) bool { return key == 0 || key == 3 }
 
 // ---------------------------------------------------------------- generation
 
@@ -154,14 +158,25 @@ func genTamper(g *Rng, tier string) *Plan {
 	k.EncDecoy = g.Bool(0.45)
 	p := &Plan{Knobs: mustJSON(k)}
 	n := 1 + g.PickW(5, 3, 2)
+	rotateAt, cur := -1, k.Trust
+	if strings.HasPrefix(k.Trust, "md") && g.Bool(0.35) {
+		if n < 2 {
+			n = 2
+		}
+		rotateAt = 1 + g.Intn(n-1)
+	}
 	for i := 0; i < n; i++ {
 		st := c01Step{Kind: "deliver", Entry: Pick(g, "xml", "xml", "post", "artifact", "artifact"), Base: "genuine"}
+		if i == rotateAt {
+			cur = map[string]string{"md1": "md2", "md1-nouse": "md2-nouse", "md2": "md1", "md2-nouse": "md1-nouse"}[cur]
+			st.Retrust = cur
+		}
 		if g.Bool(0.10) {
 			st.Base = "untrusted"
 		}
 		signKey := 0
-		if strings.HasPrefix(k.Trust, "md2") && g.Bool(0.4) {
-			signKey = 3
+		if (strings.HasPrefix(cur, "md2") || rotateAt >= 0 || k.Trust == "pinned") && g.Bool(0.4) {
+			signKey = 3 // trusted under md2; retired (or not yet introduced) under md1; listed in the metadata but excluded by a pinned certificate
 		}
 		if st.Base == "untrusted" {
 			signKey = Pick(g, 2, 4)
@@ -218,6 +233,7 @@ type c01Unit struct {
 	ID     string
 	Norm   string
 	Covers []int
+	Key    int // index of the signing key; whether it is a trusted root is judged at delivery time (trust can be rotated)
 }
 
 type c01World struct {
@@ -366,7 +382,7 @@ func (w *c01World) covered(root *etree.Element, depth int, into map[int]bool) {
 			}
 		}
 		for _, u := range w.units {
-			if u.ID != id {
+			if u.ID != id || !c01IsTrusted(w.trust, u.Key) {
 				continue
 			}
 			want := map[string]string{"AR": "ArtifactResponse", "R": "Response", "A": "Assertion"}[u.Kind]
@@ -564,8 +580,8 @@ func (w *c01World) issue(st *c01Step, si int, t0 time.Time) *c01Msg {
 	var idx []int
 	for i := range s.Assertions {
 		a := &s.Assertions[i]
-		covered := (a.Sign && c01IsTrusted(w.trust, a.SignKey)) || (s.Sign && c01IsTrusted(w.trust, s.SignKey)) ||
-			(st.Entry == "artifact" && st.ArtSign && c01IsTrusted(w.trust, st.ArtKey))
+		covered := (a.Sign && c01RootKey(a.SignKey)) || (s.Sign && c01RootKey(s.SignKey)) ||
+			(st.Entry == "artifact" && st.ArtSign && c01RootKey(st.ArtKey))
 		if !covered {
 			idx = append(idx, -1)
 			continue
@@ -581,19 +597,19 @@ func (w *c01World) issue(st *c01Step, si int, t0 time.Time) *c01Msg {
 	}
 	for i := range s.Assertions {
 		a := &s.Assertions[i]
-		if a.Sign && c01IsTrusted(w.trust, a.SignKey) {
+		if a.Sign && c01RootKey(a.SignKey) {
 			src := m.gas[i]
 			if a.Encrypt {
 				src = w.blobs[c01CipherKey(m.gas[i])]
 			}
-			w.units = append(w.units, c01Unit{Kind: "A", ID: a.ID, Norm: c01Norm(src, true), Covers: []int{idx[i]}})
+			w.units = append(w.units, c01Unit{Kind: "A", ID: a.ID, Norm: c01Norm(src, true), Covers: []int{idx[i]}, Key: a.SignKey})
 		}
 	}
-	if s.Sign && c01IsTrusted(w.trust, s.SignKey) {
-		w.units = append(w.units, c01Unit{Kind: "R", ID: s.ID, Norm: c01Norm(m.gresp, true), Covers: all})
+	if s.Sign && c01RootKey(s.SignKey) {
+		w.units = append(w.units, c01Unit{Kind: "R", ID: s.ID, Norm: c01Norm(m.gresp, true), Covers: all, Key: s.SignKey})
 	}
-	if m.ar != nil && st.ArtSign && c01IsTrusted(w.trust, st.ArtKey) {
-		w.units = append(w.units, c01Unit{Kind: "AR", ID: "id-art-" + strconv.Itoa(si), Norm: c01Norm(m.ar, true), Covers: all})
+	if m.ar != nil && st.ArtSign && c01RootKey(st.ArtKey) {
+		w.units = append(w.units, c01Unit{Kind: "AR", ID: "id-art-" + strconv.Itoa(si), Norm: c01Norm(m.ar, true), Covers: all, Key: st.ArtKey})
 	}
 	return m
 }
@@ -1603,6 +1619,9 @@ func c01NewSP(k c01Knobs) *saml.ServiceProvider {
 	for _, i := range c01TrustedKeys(k.Trust) {
 		signing = append(signing, rsaKeys[i])
 	}
+	if k.Trust == "pinned" {
+		signing = []KeyPair{rsaKeys[3]} // the metadata lists another certificate: pinning must exclude it
+	}
 	md := idpMetadataFor(idpEntity, idpSSO, idpSLO, signing, enc, use)
 	spv := newSP(spBase, rsaKeys[c01SPKey], "", md)
 	switch k.Trust {
@@ -1674,6 +1693,14 @@ func execTamper(t *testing.T, p *Plan) *Result {
 		if st.Entry != "artifact" {
 			st.ArtSign = false
 		}
+		if st.Retrust != "" && strings.HasPrefix(k.Trust, "md") && strings.HasPrefix(st.Retrust, "md") {
+			// metadata refresh on the same SP object: a signing key is added or retired
+			k.Trust = st.Retrust
+			w.trust = st.Retrust
+			spv.IDPMetadata = c01NewSP(k).IDPMetadata
+			res.fire("trust-rotation:" + st.Retrust)
+			res.logf("step %d trust configuration replaced by %s", si, st.Retrust)
+		}
 		t0 := time.Now()
 		m := w.issue(&st, si, t0)
 		m.capture()
@@ -1707,7 +1734,7 @@ func execTamper(t *testing.T, p *Plan) *Result {
 		sort.Strings(covLabels)
 		issuedCovered := 0
 		for gi := range w.genuine {
-			if strings.HasPrefix(w.genuine[gi].Label, fmt.Sprintf("s%da", si)) {
+			if strings.HasPrefix(w.genuine[gi].Label, fmt.Sprintf("s%da", si)) && cov[gi] {
 				issuedCovered++
 			}
 		}
